@@ -167,22 +167,24 @@ Print Assumptions C06_external_cancel_late_report.
    model, an exit that is not forced by the interrupt timeout or a second signal comes after
    every pool's aggregator has drained, flushed and closed. *)
 Theorem C06_signal_flush_if_cli_waits : forall pools h s r,
-  crun true (proc_init pools) h = Some s -> exited s = Some r -> orderly r = true ->
+  crun true true (proc_init pools) h = Some s -> exited s = Some r -> orderly r = true ->
   all_true (aggr_closed s) = true.
 Proof. exact signal_flush_waiting. Qed.
 Print Assumptions C06_signal_flush_if_cli_waits.
 
 Example C06_orderly_exit_exists :
-  exists h s, crun true (proc_init 2) h = Some s /\ exited s = Some ExInterrupted /\ all_true (aggr_closed s) = true.
+  exists h s, crun true true (proc_init 2) h = Some s /\ exited s = Some ExInterrupted /\ all_true (aggr_closed s) = true.
 Proof. exact signal_orderly_exit_exists. Qed.
 
-(* C06_signal_flush (full statement), about WHAT cli/cli.go DOES NOW (cli_waits is regenerated
-   from the source on every run; the bridge Gen/Phout_bridge.v requires it to be true): in
-   every execution of the process model, every exit that is not forced by the interrupt
-   timeout or by a second signal comes after every pool's aggregator has drained its queue,
-   flushed and closed its destination. *)
+(* C06_signal_flush (full statement), about WHAT cli/cli.go DOES NOW (cli_waits and
+   cli_failed_waits are regenerated from the source on every run; the bridge
+   Gen/Phout_bridge.v requires them to be true): in every execution of the process model -
+   normal end, failed run (engine error) and SIGINT/SIGTERM alike - every exit that is not
+   forced by the documented timeout (3 s failed run / SIGTERM, 30 s SIGINT: C06_cli_bridge) or
+   by a second signal comes after every pool's aggregator has drained its queue, flushed and
+   closed its destination. *)
 Theorem C06_signal_flush : forall pools h s r,
-  crun cli_waits (proc_init pools) h = Some s -> exited s = Some r -> orderly r = true ->
+  crun cli_waits cli_failed_waits (proc_init pools) h = Some s -> exited s = Some r -> orderly r = true ->
   all_true (aggr_closed s) = true.
 Proof. exact signal_flush_now. Qed.
 Print Assumptions C06_signal_flush.
@@ -191,6 +193,30 @@ Print Assumptions C06_signal_flush.
    for such a cli the statement is false — this is the witness that was replayed on the real
    binary (seeded/fix-C06-signal-flush). *)
 Theorem C06_signal_flush_without_wait_refuted :
-  exists h s, crun false (proc_init 1) h = Some s /\ exited s = Some ExInterrupted /\ all_true (aggr_closed s) = false.
+  exists h s, crun false true (proc_init 1) h = Some s /\ exited s = Some ExInterrupted /\ all_true (aggr_closed s) = false.
 Proof. exact signal_flush_not_waiting_refuted. Qed.
 Print Assumptions C06_signal_flush_without_wait_refuted.
+
+(* The failed-run branch: a cli that does not wait there can exit before the close. *)
+Theorem C06_failed_run_without_wait_refuted :
+  exists h s, crun true false (proc_init 1) h = Some s /\ exited s = Some ExFailed /\ all_true (aggr_closed s) = false.
+Proof. exact failed_run_not_waiting_refuted. Qed.
+Print Assumptions C06_failed_run_without_wait_refuted.
+
+Example C06_failed_run_orderly_exit_exists :
+  exists h s, crun true true (proc_init 2) h = Some s /\ exited s = Some ExFailed /\ all_true (aggr_closed s) = true.
+Proof. exact failed_run_orderly_exit_exists. Qed.
+
+(* What the model assumes about the source, re-read on every run: both branches of the cli wait
+   for Engine.Wait(); the time budgets are 3 s / 3 s / 30 s as time.Duration values; runCancel()
+   is called only in checkAllInstancesAreFinished. *)
+Theorem C06_cli_bridge :
+  cli_waits = true /\ cli_failed_waits = true
+  /\ gen_cli_await_timeout_ns = await_timeout_ns /\ gen_cli_sigterm_timeout_ns = sigterm_timeout_ns
+  /\ gen_cli_sigint_timeout_ns = sigint_timeout_ns
+  /\ gen_run_cancel_only_in_check = true.
+Proof.
+  split; [exact cli_waits_bridge|]. split; [exact cli_failed_waits_bridge|].
+  destruct cli_timeouts_bridge as (A & B & C). split; [exact A|]. split; [exact B|]. split; [exact C|exact run_cancel_bridge].
+Qed.
+Print Assumptions C06_cli_bridge.
